@@ -434,6 +434,9 @@ def _run(scn, log: EventLog, stats: Stats):
                 if res is v:
                     raise Violation((PROP, backend, style, "returned-callers-object"), k, step)
             results[op["id"]] = res
+            if getattr(res, "shape", (0,))[0] > 8000:
+                stats.probe("result-too-large-not-compared")
+                continue
             if not is_determinate(pi, backend, variant):
                 log.emit(backend, "result-not-determined-by-the-pipeline", None)
                 continue
